@@ -77,6 +77,13 @@ class C13(Prop):
         out['fp_tnp'] = [fl(np.asarray(x)[:, 0], np) for x in t2]
         sdsd = cv.SDR_SDSD(s, d, r)
         out['sdsd'] = [fl(x, np)[0] for x in sdsd]
+        # the two strike/dip/rake triples reported for a result (output conversion of the double-couple tensor of this plane)
+        try:
+            mt6 = cv.Tape_MT6(np.array([0.0]), np.array([0.0]), np.array([s]), np.array([math.cos(d)]), np.array([r if abs(r) <= PI / 2 else (r - PI if r > 0 else r + PI)]))
+            oc = cv.output_convert(np.asarray(mt6, dtype=float).reshape(6, 1))
+            out['oc'] = {kk: float(np.asarray(vv).flatten()[0]) for kk, vv in oc.items() if kk in ('S1', 'D1', 'R1', 'S2', 'D2', 'R2')}
+        except Exception as e:       # reported by the oracle
+            out['oc_exc'] = '%s: %s' % (type(e).__name__, e)
         # the conversions must leave the caller's vectors and angles alone (a pair that is converted twice describes one source)
         mutated = []
         for nme, fn, args in (('FP_SDR', cv.FP_SDR, [np.array(n2, dtype=float).copy(), np.array(n1, dtype=float).copy()]),
@@ -180,6 +187,19 @@ class C13(Prop):
         at = dc_tensor(impl['aux_f2'], impl['aux_f1'])
         if not all(close(ref[i][j], at[i][j], atol=1e-7) for i in range(3) for j in range(3)):
             out.append(('aux-tensor', 'the auxiliary plane %r reconstructs a different tensor than (%r, %r, %r)' % (impl['aux'], s, d, r), None))
+        if 'oc_exc' in impl:
+            out.append(('output-planes', 'output conversion of the double-couple of plane (%r, %r, %r) raised %s' % (s, d, r, impl['oc_exc']), None))
+        oc = impl.get('oc', {})
+        if len(oc) == 6 and d > 1e-3:
+            rad = PI / 180
+            n1 = [-math.sin(oc['S1'] * rad) * math.sin(oc['D1'] * rad), math.cos(oc['S1'] * rad) * math.sin(oc['D1'] * rad), -math.cos(oc['D1'] * rad)]
+            n2 = [-math.sin(oc['S2'] * rad) * math.sin(oc['D2'] * rad), math.cos(oc['S2'] * rad) * math.sin(oc['D2'] * rad), -math.cos(oc['D2'] * rad)]
+            sd_, dp_, rk_ = oc['S1'] * rad, oc['D1'] * rad, oc['R1'] * rad
+            s1 = [math.cos(rk_) * math.cos(sd_) + math.sin(rk_) * math.cos(dp_) * math.sin(sd_),
+                  math.cos(rk_) * math.sin(sd_) - math.sin(rk_) * math.cos(dp_) * math.cos(sd_), -math.sin(rk_) * math.sin(dp_)]
+            if abs(dot(n1, n2)) > 1e-6 or abs(abs(dot(s1, n2)) - 1) > 1e-6:
+                out.append(('output-planes', 'the two planes reported for the double-couple of (%r, %r, %r) are (%r, %r, %r) and (%r, %r, %r): not each other\'s '
+                            'auxiliary plane (n1.n2 = %r, |slip1.n2| = %r)' % (s, d, r, oc['S1'], oc['D1'], oc['R1'], oc['S2'], oc['D2'], oc['R2'], dot(n1, n2), abs(dot(s1, n2))), None))
         if impl.get('mutated'):
             out.append(('purity', 'the caller\'s arrays were modified by %s' % ', '.join(impl['mutated']), None))
         for key in ('sdr_back', 'aux', 'tnp_sdr'):
